@@ -111,3 +111,17 @@ def ann(a) -> dict:
 def has_bits(a) -> list:
     return [int(x is not None) for x in (a.isotope_mods, a.static_mods, a.labile_mods, a.unknown_mods, a.nterm_mods,
                                          a.cterm_mods, a.internal_mods, a.intervals, a.charge, a.charge_adducts)]
+
+
+def count8(x) -> dict:
+    """A composition count (int or float) -> sign + three base-1e4 limbs: |x| = c0 + c1*1e-4 + c2*1e-8."""
+    d = Decimal(repr(x)) if isinstance(x, float) else Decimal(x)
+    neg = d < 0
+    d = abs(d).quantize(Decimal("0.00000001"), rounding=ROUND_HALF_EVEN)
+    c0 = int(d)
+    rest = int((d - c0) * 10 ** 8)
+    return {"neg": bool(neg), "c0": c0, "c1": rest // 10000, "c2": rest % 10000}
+
+
+def comp8(c: dict) -> list:
+    return [{"sym": str(k), **count8(v)} for k, v in sorted(c.items(), key=lambda kv: str(kv[0]))]
